@@ -54,6 +54,7 @@ func runC18(r *Result, d *drv.Driver, tier string, seed int64, replay string) {
 	c18MarkerForms(r)
 	c18OtherKeys(r)
 	c18Repeated(r)
+	c18Embedded(r)
 	// samples: what the real encoder emits for a few annotations
 	for _, name := range []string{"UNIQUE_IDENTIFIER", "REQUEST_MESSAGE", "SENSITIVE"} {
 		r.sample(map[string]string{"annotation": name, "real_encode": encodeWithAnnotation(name)})
@@ -100,7 +101,8 @@ func runC19(r *Result, d *drv.Driver, tier string, seed int64, replay string) {
 		r.distinctSet[strconv.Itoa(i)] = true
 	}
 	// samples: real encodings showing the wire tags of two structures
-	kb := kmip.KeyBlock{FormatType: 1, WrappingData: kmip.KeyWrappingData{WrappingMethod: 1}}
+	kb := kmip.KeyBlock{FormatType: 1}
+	kb.WrappingData.WrappingMethod = 1 // by assignment: it works whether the field is declared in the type or promoted into it
 	out, _, _ := realEncode(kb)
 	r.sample(map[string]string{"value": "KeyBlock{FormatType:1, WrappingData:{WrappingMethod:1}}", "real_encode": out})
 	rr := kmip.RevokeRequest{RevocationReason: kmip.RevocationReason{RevocationReasonCode: 1, RevocationMessage: "m"}}
@@ -853,7 +855,11 @@ func c19Concurrent(r *Result) {
 		&kmip.Request{Header: kmip.RequestHeader{Version: ver, BatchCount: 1}, BatchItems: []kmip.RequestBatchItem{{Operation: kmip.OPERATION_GET, RequestPayload: kmip.GetRequest{UniqueIdentifier: "49a1ca88-6bea-4fb2-b450-7e58802c3038"}}}},
 		&kmip.Response{Header: kmip.ResponseHeader{Version: ver, TimeStamp: time.Unix(1000000000, 0), BatchCount: 1},
 			BatchItems: []kmip.ResponseBatchItem{{Operation: kmip.OPERATION_DESTROY, ResultStatus: kmip.RESULT_STATUS_SUCCESS, ResponsePayload: kmip.DestroyResponse{UniqueIdentifier: "fb4b5b9c-6188-4c63-8142-fe9c328129fc"}}}},
-		&kmip.KeyBlock{FormatType: 1, WrappingData: kmip.KeyWrappingData{WrappingMethod: 1}, CryptographicLength: 128},
+		func() interface{} {
+			kb := &kmip.KeyBlock{FormatType: 1, CryptographicLength: 128}
+			kb.WrappingData.WrappingMethod = 1
+			return kb
+		}(),
 		&kmip.TemplateAttribute{Name: kmip.Name{Value: "n", Type: 1}, Attributes: kmip.Attributes{{Name: kmip.ATTRIBUTE_NAME_CRYPTOGRAPHIC_LENGTH, Value: int32(2048)}}},
 	}
 	var want [][]byte
@@ -993,4 +999,64 @@ func c18Repeated(r *Result) {
 		}
 	}
 	r.Stats["annotation-repeated-in-one-struct-probes"] = n
+}
+
+// embedded structs: a struct type embedding another struct type that has a marker of its own. The codec has never looked
+// inside unannotated embedded fields; whether it does or not, the OUTER type's annotation is the outer type's.
+type TEmbInnerAttr struct {
+	kmip.Tag `kmip:"ATTRIBUTE"`
+	V        int32 `kmip:"ATTRIBUTE_INDEX"`
+}
+type TEmbInnerName struct {
+	kmip.Tag `kmip:"NAME"`
+	V        int32 `kmip:"ATTRIBUTE_INDEX"`
+}
+type TEmbOuterA struct {
+	kmip.Tag `kmip:"TEMPLATE_ATTRIBUTE"`
+	A        int32 `kmip:"BATCH_COUNT,required"`
+	TEmbInnerAttr
+}
+type TEmbOuterB struct {
+	kmip.Tag `kmip:"REQUEST_HEADER"`
+	TEmbInnerName
+	A int32 `kmip:"BATCH_COUNT,required"`
+}
+type TEmbOuterC struct {
+	kmip.Tag `kmip:"KEY_BLOCK"`
+	A        int32 `kmip:"BATCH_COUNT,required"`
+	TEmbInnerAttr
+	TEmbInnerName
+}
+
+// c18Embedded: the struct annotation of a type that embeds other annotated struct types resolves to ITS name's number: Encode
+// writes the outer structure under it, and Decode accepts those bytes back.
+func c18Embedded(r *Result) {
+	for _, c := range []struct {
+		v    interface{}
+		name string
+		tag  uint32
+	}{
+		{&TEmbOuterA{A: 5, TEmbInnerAttr: TEmbInnerAttr{V: 1}}, "TEMPLATE_ATTRIBUTE", uint32(kmip.TEMPLATE_ATTRIBUTE)},
+		{&TEmbOuterB{A: 5, TEmbInnerName: TEmbInnerName{V: 1}}, "REQUEST_HEADER", uint32(kmip.REQUEST_HEADER)},
+		{&TEmbOuterC{A: 5}, "KEY_BLOCK", uint32(kmip.KEY_BLOCK)},
+	} {
+		key := fmt.Sprintf("struct annotation kmip:%q on a type embedding annotated struct types (%T)", c.name, c.v)
+		r.eval(key, true)
+		out, written, _ := realEncode(c.v)
+		r.Stats["embedded-marker-probes"]++
+		if !strings.HasPrefix(out, "ok") || len(written) < 8 {
+			r.find(Finding{Kind: "violation", What: "a struct embedding annotated struct types could not be encoded", Input: key, Actual: out})
+			continue
+		}
+		got := uint32(written[0])<<16 | uint32(written[1])<<8 | uint32(written[2])
+		if got != c.tag {
+			r.find(Finding{Kind: "violation", What: "the struct annotation kmip:\"" + c.name + "\" does not resolve to the number of " + c.name + ": an embedded type's annotation took its place", Input: key,
+				Expect: fmt.Sprintf("%06x", c.tag), Actual: fmt.Sprintf("%06x (%s)", got, hx(written))})
+			continue
+		}
+		tgt := reflect.New(reflect.TypeOf(c.v).Elem())
+		if err := kmip.NewDecoder(bytes.NewReader(written)).Decode(tgt.Interface()); err != nil {
+			r.find(Finding{Kind: "violation", What: "bytes written for a struct embedding annotated struct types are not accepted back", Input: key, Actual: err.Error()})
+		}
+	}
 }
